@@ -81,7 +81,7 @@ def gen_cases(tier, seed):
             spec.append({"p": "adir/x", "k": "f", "size": 4, "seed": 2, "segs": None})
             srcs.insert(pos, "adir")
             dstate = "collide"
-            collide_kind = r.choice(["file", "file", "dangling-link", "fifo", "link-to-file"])
+            collide_kind = r.choice(["file", "file", "dangling-link", "fifo", "link-to-file", "link-to-dir", "link-to-dir"])
         elif cls == "same-as-dest":
             which = r.choice(["file", "dir", "mapped"])
             if which == "file":
@@ -154,7 +154,11 @@ def gen_cases(tier, seed):
             if dstate == "collide":
                 # something that is not a directory sits where the directory maps to
                 pre.append({"file": {"p": "dst/adir", "k": "f", "size": 6, "seed": 8, "segs": None}, "dangling-link": {"p": "dst/adir", "k": "l", "target": "nowhere-at-all"},
-                            "fifo": {"p": "dst/adir", "k": "fifo"}, "link-to-file": {"p": "dst/adir", "k": "l", "target": "old"}}[collide_kind])
+                            "fifo": {"p": "dst/adir", "k": "fifo"}, "link-to-file": {"p": "dst/adir", "k": "l", "target": "old"},
+                            "link-to-dir": {"p": "dst/adir", "k": "l", "target": "realdir"}}[collide_kind])
+                if collide_kind == "link-to-dir":
+                    pre[-1] = {"p": "dst/adir", "k": "l", "target": "realdir"}
+                    pre.append({"p": "dst/realdir", "k": "d"})
                 if collide_kind == "link-to-file":
                     pre.append({"p": "dst/old", "k": "f", "size": 9, "seed": 6, "segs": None})
         if cls in ("no-source",) and dstate == "absent":
